@@ -600,8 +600,14 @@ struct Env<'a> {
 }
 
 fn name_of(env: &Env, k: usize) -> String {
-    // (the identifier the user would type, whether or not the stored record has it)
-    ident_full(k)[ID_KINDS[env.sc.id_kind]].as_str().unwrap().to_string()
+    // (the identifier the user would type, whether or not the stored record has it; for two
+    // thirds of the records that lack the queried kind the user types the record's *name*
+    // instead: an identifier of another kind must never be matched - seeded change C14-g)
+    let kind = env.sc.id_kind;
+    if ident(k).get(ID_KINDS[kind]).is_none() && k % 3 != 1 {
+        return ident_full(k)["name"].as_str().unwrap().to_string();
+    }
+    ident_full(k)[ID_KINDS[kind]].as_str().unwrap().to_string()
 }
 
 fn compare<P: Behave>(out: &mut RunOutcome, dg: &mut Digest, what: &str, lib: Result<P, String>, reference: Result<P, String>, faulted: bool)
